@@ -139,6 +139,24 @@ pub fn exec(case: &J, acc: &mut Acc) -> Result<(), Fail> {
             Ok(Ok(Ok(x))) => x,
         };
         if let Some(d) = a.views[k].without_diagnostics().diff(&view0.without_diagnostics()) {
+            // known finding: JSON has no NaN, a global holding NaN is saved as 0.0 (as in the
+            // reference runtime). Keyed on exactly that: every difference is a NaN global
+            // restored as 0.0.
+            let mut nan0 = a.views[k].without_diagnostics();
+            let mut nans = 0;
+            for v in nan0.globals.values_mut() {
+                if v == "F:NaN" {
+                    *v = "F:0.0".into();
+                    nans += 1;
+                }
+            }
+            if nans > 0 && nan0.diff(&view0.without_diagnostics()).is_none() {
+                return Err(Fail::violation(
+                    "nan-global-restored-as-zero",
+                    format!("a global holding NaN at save point {k} is 0.0 in the restored story: {d}"),
+                    one,
+                ));
+            }
             return Err(Fail::violation(
                 "restored-view-differs",
                 format!("right after load_state (save point {k}) the restored story differs from the original: {d}"),
@@ -247,6 +265,52 @@ pub fn json_diff(a: &str, b: &str) -> String {
     }
 }
 
+/// A small family of programs over four float globals: a generated list of assignments from
+/// operations that overflow f32 (powers, products), cancel infinities (differences, products
+/// with zero) or are undefined (root of a negative number, remainder by zero), with the values
+/// printed and offered in choices between them. Values live in globals only.
+pub fn float_extremes_source(tape: &[u16]) -> String {
+    const INIT: [&str; 6] = ["10.0", "-10.0", "0.0", "1.5", "1000000.0", "-0.5"];
+    let at = |i: usize| tape.get(i).copied().unwrap_or(0) as usize;
+    let mut s = String::new();
+    for g in 0..4 {
+        s += &format!("VAR f{g} = {}\n", INIT[at(g) % INIT.len()]);
+    }
+    s += "-> top\n=== top ===\n";
+    let mut i = 4;
+    let mut round = 0;
+    loop {
+        let n = 1 + at(i) % 3;
+        i += 1;
+        for _ in 0..n {
+            let t = at(i) % 4;
+            let a = at(i) / 4 % 4;
+            let b = at(i) / 16 % 4;
+            let e = match at(i) / 64 % 9 {
+                0 => format!("POW(f{a}, 60.0)"),
+                1 => format!("f{a} * f{b}"),
+                2 => format!("f{a} - f{b}"),
+                3 => format!("0.0 - f{a}"),
+                4 => format!("f{a} * 1000000000000000000000.0"),
+                5 => format!("f{a} / 3.0"),
+                6 => format!("f{a} + f{b}"),
+                7 => format!("POW(f{a}, 0.5)"),
+                _ => format!("f{a} % f{b}"),
+            };
+            s += &format!("~ f{t} = {e}\n");
+            i += 1;
+        }
+        s += &format!("Round {round}: {{f0}} {{f1}} {{f2}} {{f3}}.\n");
+        round += 1;
+        if i >= tape.len() || round >= 4 {
+            break;
+        }
+        s += &format!("* [on {round}] {{f0 > f1: more|less}}\n* [stay {round}] {{f2 == f2: same|not same}}\n- \n");
+    }
+    s += "-> END\n";
+    s
+}
+
 pub fn run(env: &Env) -> i32 {
     let mut rep = Report::new("exploration", RULE);
     rep.assumptions = vec![
@@ -296,6 +360,34 @@ pub fn run(env: &Env) -> i32 {
                 acc.class(&format!("prog:{f}"));
             }
             let case = json!({"source": b.src, "cfg": cfg_to_json(&cfg), "ops": ops_to_json(&ops)});
+            acc.sample(|| case.clone());
+            exec(&case, acc)
+        },
+    );
+    rep.absorb(r);
+
+    // float extremes: programs whose globals overflow to infinities (and NaN) under generated
+    // histories; only globals hold the values, so the NaN finding is keyed exactly
+    let n3 = env.cases(1500, 20000);
+    let r = run_cases(
+        env,
+        3,
+        n3,
+        || (proptest::collection::vec(proptest::num::u16::ANY, 0..24), proptest::collection::vec(proptest::num::u16::ANY, 0..40)),
+        |(tape, hist): &(Vec<u16>, Vec<u16>), acc: &mut Acc| {
+            let src = float_extremes_source(tape);
+            let Ok((_doc, meta)) = compile_src(&src) else {
+                acc.discard("compile_failed");
+                return Ok(());
+            };
+            let mut ops = decode_history(hist, &meta, &hp);
+            ops.extend(tail(hist.last().copied().unwrap_or(0) as usize, 2));
+            let cfg = HostCfg { allow_fallbacks: true, ..HostCfg::default() };
+            acc.class("float_extremes_program");
+            if src.contains("POW(f") || src.contains("* f") {
+                acc.class("float_extremes:overflowing_op");
+            }
+            let case = json!({"source": src, "cfg": cfg_to_json(&cfg), "ops": ops_to_json(&ops)});
             acc.sample(|| case.clone());
             exec(&case, acc)
         },
